@@ -57,8 +57,22 @@ def run(rep):
                   f'the embedded variant is `{E.tmpl_text(emb) if emb[0] == "tmpl" else E.show(emb, maxdepth=4)}` with '
                   f'{E.show(list(E.holes(emb).values())[0], maxdepth=6) if emb[0] == "tmpl" and E.holes(emb) else None}; expected the wgsl_source parameter itself interpolated as one string '
                   f'literal (any trim/replace/chunk/re-encode changes the bytes)', ok_detail='quote!(#wgsl_source) with the parameter unmodified')
-    frag = 'pub fn create_shader_module ( device : & wgpu :: Device ) -> wgpu :: ShaderModule { let source = std :: borrow :: Cow :: Borrowed ( SOURCE ) ; device . create_shader_module ( wgpu :: ShaderModuleDescriptor { label : None , source : wgpu :: ShaderSource :: Wgsl ( source ) } ) }'
-    rep.check(frag in txt, 'C16.device-source', 'device-source', where, 'create_shader_module does not hand Cow::Borrowed(SOURCE) to ShaderSource::Wgsl', ok_detail='ShaderSource::Wgsl(Cow::Borrowed(SOURCE))')
+    import re as _re
+    from tokrules import find_struct_expr
+    fn_m = _re.search(r'pub fn create_shader_module \( (\w+) : & wgpu :: Device \) -> wgpu :: ShaderModule \{(.*)\}\s*$', txt)
+    okd = False
+    if fn_m:
+        body = fn_m.group(2)
+        dev = fn_m.group(1)
+        d = find_struct_expr(body, 'wgpu :: ShaderModuleDescriptor')
+        srcv = d[1].get('source') if d and d[1] else None
+        direct = srcv == ('wgpu::ShaderSource::Wgsl', {'0': ('std::borrow::Cow::Borrowed', {'0': ('SOURCE', None)})})
+        via = None
+        if srcv and srcv[0] == 'wgpu::ShaderSource::Wgsl' and srcv[1] and srcv[1].get('0') and srcv[1]['0'][1] is None:
+            var = srcv[1]['0'][0]
+            via = _re.search(r'let ' + _re.escape(var) + r' = std :: borrow :: Cow :: Borrowed \( SOURCE \) ;', body) is not None
+        okd = d is not None and (direct or via) and f'{dev} . create_shader_module ( wgpu :: ShaderModuleDescriptor' in body
+    rep.check(okd, 'C16.device-source', 'device-source', where, 'create_shader_module does not hand Cow::Borrowed(SOURCE) to ShaderSource::Wgsl in the descriptor given to the device', ok_detail='ShaderSource::Wgsl(Cow::Borrowed(SOURCE))')
     rep.check(txt.count('SOURCE') == 2, 'C16.device-source', 'source-defined-once', where, 'SOURCE is defined / used an unexpected number of times', ok_detail='defined once, used once')
     # ---- MIR: public wrappers pass their parameters through unchanged ------------------------------------------------------------------
     mir = Mir()
